@@ -240,7 +240,7 @@ fn eq_case(out: &mut Out, c: Cmp, l: &[u8], r: &[u8]) {
 
 const LINES: &[&[u8]] = &[
     b"a\n", b"b\n", b"c\n", b"a b\n", b"a  b\n", b"\n", b"c\r\n", b" a\n", b"\tb \n", b"\x00\xff\n", b"a_b-c\n", b"d e f\n",
-    b"ab\n", b"a.b\n", b" \n",
+    b"ab\n", b"a.b\n", b" \n", b"a\x0bb\n", b"a\x0c b\n",
 ];
 const TAILS: &[&[u8]] = &[b"", b"", b"a", b"b", b"a b", b" ", b"\xfe", b"c\r"];
 
@@ -305,7 +305,7 @@ pub fn run(cfg: &Cfg, out: &mut Out) {
     // 1. tokenizers and comparators on all short strings over a tiny alphabet
     let small = all_strings(b"a \n_", 4);
     for s in &small { for t in [Tok::Line, Tok::Word, Tok::Nonword] { tok_case(out, t, s); } }
-    let ws = all_strings(b"a \t", 3);
+    let ws = all_strings(b"a \t\x0b", 3);
     for l in &ws { for r in &ws { for c in CMPS { eq_case(out, c, l, r); } } }
 
     // 2. exhaustive: all pairs of strings of length ≤ 3 over {a, space, newline}; every tokenizer × comparator,
@@ -348,12 +348,14 @@ pub fn run(cfg: &Cfg, out: &mut Out) {
         let n = *r.pick(&[1usize, 2, 2, 3]) + 1;
         let mut inputs = vec![];
         for _ in 0..n {
-            let mut lines: Vec<Vec<u8>> = vec![rep.to_vec(); r.range(95, 125)];
-            for _ in 0..r.below(4) {
+            // exactly max_occurrences (100) copies ± 1 half of the time: the `> max_occurrences` boundaries
+            let count = if r.chance(1, 2) { *r.pick(&[99usize, 100, 100, 101, 102]) } else { r.range(95, 125) };
+            let mut lines: Vec<Vec<u8>> = vec![rep.to_vec(); count];
+            for _ in 0..(if r.chance(1, 3) { 0 } else { r.below(4) }) {
                 let i = r.below(lines.len() + 1);
                 lines.insert(i, LINES[r.below(6)].to_vec());
             }
-            if r.chance(1, 3) { let i = r.below(lines.len() + 1); lines.insert(i, b"unique\n".to_vec()); }
+            if r.chance(1, 4) { let i = r.below(lines.len() + 1); lines.insert(i, b"unique\n".to_vec()); }
             inputs.push(join(&mut r, &lines));
         }
         let steps = match r.below(4) {
